@@ -6,7 +6,8 @@ TREE=${1:-/repo}
 export PYTHONPATH="$TREE/src"
 OUT=$(mktemp /tmp/baseline.XXXXXX.xml); OUT2=$(mktemp /tmp/baseline2.XXXXXX.xml)
 cd "$TREE" && env -u IBL_NEUROPIXEL_VERIF /venv/bin/python -m pytest -q -p no:cacheprovider --timeout=900 --continue-on-collection-errors -n 8 --ignore=src/tests/unit/test_ephys_np2.py --junitxml=$OUT >/dev/null 2>&1
-cat > /tmp/_bl_cmp.py <<'PY'
+CMP=$(mktemp /tmp/_bl_cmp.XXXXXX.py)
+cat > $CMP <<'PY'
 import sys, json, xml.etree.ElementTree as ET
 base = set(json.load(open('/root/.vp/BASELINE.json'))['stable_pass'])
 ok=set()
@@ -31,9 +32,9 @@ else:
     for m in missing: print("  MISSING", m)
     sys.exit(1 if missing else 0)
 PY
-IDS=$(python3 /tmp/_bl_cmp.py ids $OUT)
+IDS=$(python3 $CMP ids $OUT)
 if [ -n "$IDS" ]; then
   env -u IBL_NEUROPIXEL_VERIF /venv/bin/python -m pytest -q -p no:cacheprovider --timeout=900 --junitxml=$OUT2 $IDS >/dev/null 2>&1
 fi
-python3 /tmp/_bl_cmp.py report $OUT $OUT2
-rc=$?; rm -f $OUT $OUT2 /tmp/_bl_cmp.py; exit $rc
+python3 $CMP report $OUT $OUT2
+rc=$?; rm -f $OUT $OUT2 $CMP; exit $rc
